@@ -448,6 +448,23 @@ func c07Assertions(c *run.Ctx, r *rand.Rand, id string, k c07cfg, w *world.World
 		if off != -time.Second {
 			c07Judge(c, id, "jwt_bearer_assertion(fractional exp)", off, out.Err == nil, world.ErrDetail(out.Err), hist)
 		}
+		// a signed OpenID Connect request object is a JWT with an expiry of its own: out of its time it starts no authorization
+		if sp := w.Specs["pkj"]; sp != nil && len(sp.RedirectURIs) > 0 {
+			keys := world.GetKeys()
+			for _, fr := range []bool{false, true} {
+				cl := map[string]interface{}{"iss": "pkj", "aud": world.Issuer, "client_id": "pkj", "response_type": "code", "scope": "openid fosite", "state": "object-state-0123456789",
+					"redirect_uri": sp.RedirectURIs[0], "nonce": "nonce-0123456789", "exp": exp.Unix()}
+				kind := "request_object"
+				if fr {
+					cl["exp"], kind = float64(exp.Unix())-0.5, "request_object(fractional exp)"
+				}
+				obj := world.SignJWT(keys.ClientRSA[0], "RS256", map[string]interface{}{"kid": "k0"}, cl)
+				az := w.Authorize(url.Values{"client_id": {"pkj"}, "response_type": {"code"}, "scope": {"openid"}, "state": {"query-state-0123456789"}, "nonce": {"nonce-0123456789"}, "redirect_uri": {sp.RedirectURIs[0]}, "request": {obj}}, world.Consent{})
+				if !(fr && off == -time.Second) {
+					c07Judge(c, id, kind, off, az.Err == nil && az.Params.Get("code") != "", world.ErrDetail(az.Err), hist)
+				}
+			}
+		}
 		if off > 0 {
 			// expiry instants in 1970: exp = 0, and fractions of the first second
 			for _, e := range []float64{0, 0.5, 0.999, 1} {
